@@ -265,3 +265,60 @@ def attribute_chain(scope: str, a: str, b: str, c: str, n: int) -> bool:
     if got != want:
         return fail(f"{a}.{b}{'.' + c if n == 3 else ''} in {scope}: {got!r}, expected {want!r}")
     return True
+
+
+# ================================================================================ attributes of computed values
+COMPUTED = ["g().{x}", "g()[0].{x}", "(g or K).{x}", "g().{x}.{x}", "'s'.{x}", "K.N().{x}"]
+
+
+@obligation(
+    pid="C04", name="computed_attribute", timeout=tiered(200, 600),
+    shards=lambda: [(f"scope={s}", None, [dict(scope=s, form=f) for f in range(len(COMPUTED))]) for s in ("module", "K", "N")],
+    pre=lambda scope, form, x: len(x) == 1 and x in "gKivxfNyhu",
+    drives=[__import__("_griffe.expressions", fromlist=["_build_attribute"])._build_attribute, prop(ExprName, "canonical_path"), Object.resolve],
+    bounds={"expression": COMPUTED, "attribute name x": "1 char over 'gKivxfNyhu' (names bound in the module, in class K, in nested class N, or nowhere)", "scope": "module w.m, class K, nested class N"},
+    value_symbolic=["x"], selectors=["scope, expression form (driver-bound)"], stubs=STUBS, must_cover=["attribute-of-computed-value-left-unresolved"],
+    grid=lambda seed: [dict(scope=s, form=f, x=x) for s in ("module", "K") for f in (0, 3, 4) for x in ("g", "x")],
+)
+def computed_attribute(scope: str, form: int, x: str) -> bool:
+    """The attribute of a computed value (call result, subscript, parenthesised expression) has no static binding: its name element is
+    never resolved to an object of the enclosing scope, whatever members happen to carry the same name; the root name still resolves normally."""
+    from vlib.stubs import realize_value
+
+    x = realize_value(x)
+    from harness.C08_json import _native
+
+    def run():
+        import ast as _ast
+
+        from _griffe.expressions import get_expression
+
+        m, k, nn = _scope_tree()
+        holder = {"module": m, "K": k, "N": nn}[scope]
+        src = COMPUTED[form].format(x=x)
+        expr = get_expression(_ast.parse(src, mode="eval").body, holder, parse_strings=False)
+        flat = [e for e in expr.iterate(flat=True) if isinstance(e, ExprName)]
+        # the attribute elements are the LAST k name elements, k = number of `.{x}` in the template (they follow the computed part)
+        k_attr = COMPUTED[form].count(".{x}")
+        for idx, e in enumerate(flat):
+            is_attr = idx >= len(flat) - k_attr
+            try:
+                cp = e.canonical_path
+            except Exception as err:  # noqa: BLE001
+                return f"{src} in {scope}: canonical_path of {e.name!r} raised {type(err).__name__}"
+            if is_attr:
+                if src.startswith("'s'"):
+                    ok = cp == "str." + x
+                elif src == f"g().{x}.{x}" and e is flat[-1]:
+                    ok = cp in (x, f"{x}.{x}")  # chained on the previous (unresolved) attribute
+                else:
+                    ok = cp == x
+                if not ok:
+                    return f"{src} in scope {scope}: the attribute {x!r} of a computed value resolves to {cp!r} (an object of the enclosing scope that merely has the same name)"
+        return None
+
+    err = _native(run)
+    if err:
+        return fail(err)
+    cover("attribute-of-computed-value-left-unresolved")
+    return True
